@@ -59,6 +59,7 @@ type ctx struct {
 	alias  map[string][]string // local identifiers aliasing a map-typed receiver field
 	fparam map[string]bool     // func-typed parameters that are not bound
 	brk    []string            // enclosing breakable constructs, innermost last: "loop" / "switch"
+	items  map[string]string   // local identifiers bound to an object handed out by a library object in a field (name -> field)
 }
 
 type closure struct {
@@ -114,6 +115,162 @@ func (c *ctx) recvPath(e ast.Expr) ([]string, bool) {
 		}
 	}
 	return nil, false
+}
+
+// ---------------------------------------------------------------------------------------------
+// Library effect table.  A library object stored in a wallet field (w.signerCache) is memory too:
+// what its methods read and write WITHOUT synchronising internally is given a pseudo-location
+// rooted at "*<field>" (the object the field points to; never a prefix of a field path, so that the
+// unlocked reads of the pointer itself do not conflict).  The lockset checker then needs a common
+// mutex around conflicting calls exactly as for a field.  Entries are written from the library's
+// source; a method that is not in the table of its type, and any method of a type that has no
+// table, counts as a WRITE of the whole object (conservative: only acceptable when every other use
+// of that object shares a mutex with it, or in the constructor).
+type libEffect struct {
+	op  string   // "Read" / "Write"
+	sub []string // path below "*<field>"
+}
+
+type libType struct {
+	methods map[string][]libEffect // effects of a method called on the object in the field
+	handout map[string]bool        // methods that return an object owned by the library (an *Item)
+	item    map[string][]libEffect // effects of the methods of such a handed-out object
+}
+
+var libTypes = map[string]*libType{
+	// github.com/karlseguin/ccache v2: Cache.Get reads Item.expires with a plain load (cache.go:57),
+	// Item.Extend stores it with atomic.StoreInt64 (item.go:102): a data race between them unless the
+	// caller serialises (defect D17d).  Set / Delete go through the bucket's RWMutex and the worker
+	// goroutine's channels and publish a fresh item: internally synchronised.  Item.Value reads a field
+	// that is never written after construction; Expired / TTL / Expires use atomic loads.
+	"*ccache.Cache": {
+		methods: map[string][]libEffect{
+			"Get":       {{"Read", []string{"item.expires"}}},
+			"Set":       {},
+			"Delete":    {},
+			"ItemCount": {},
+			"Stop":      {},
+		},
+		handout: map[string]bool{"Get": true},
+		item: map[string][]libEffect{
+			"Extend":  {{"Write", []string{"item.expires"}}},
+			"Value":   {},
+			"Expired": {},
+			"TTL":     {},
+			"Expires": {},
+		},
+	},
+	// documented as safe for concurrent use by multiple goroutines
+	"*regexp.Regexp":     {methods: nil},
+	"*template.Template": {methods: nil},
+	"context.CancelFunc": {methods: nil},
+}
+
+func (c *ctx) libEffects(field, method string) []instr {
+	g := c.g
+	root := "*" + field
+	ft, ok := g.fields[field]
+	if !ok {
+		return []instr{{op: "Write", path: []string{root}}}
+	}
+	lt, ok := libTypes[g.renderFull(ft)]
+	if !ok {
+		return []instr{{op: "Write", path: []string{root}}}
+	}
+	if lt.methods == nil { // whole type internally synchronised
+		return nil
+	}
+	effs, ok := lt.methods[method]
+	if !ok {
+		return []instr{{op: "Write", path: []string{root}}}
+	}
+	var out []instr
+	for _, e := range effs {
+		out = append(out, instr{op: e.op, path: append([]string{root}, e.sub...)})
+	}
+	return out
+}
+
+func (c *ctx) itemEffects(field, method string) []instr {
+	g := c.g
+	root := "*" + field
+	unknown := []instr{{op: "Write", path: []string{root, "item"}}}
+	ft, ok := g.fields[field]
+	if !ok {
+		return unknown
+	}
+	lt, ok := libTypes[g.renderFull(ft)]
+	if !ok || lt.item == nil {
+		return unknown
+	}
+	effs, ok := lt.item[method]
+	if !ok {
+		return unknown
+	}
+	var out []instr
+	for _, e := range effs {
+		out = append(out, instr{op: e.op, path: append([]string{root}, e.sub...)})
+	}
+	return out
+}
+
+// handoutField: e is a call w.<field>.<M>(...) whose result is an object owned by the library
+func (c *ctx) handoutField(e ast.Expr) (string, bool) {
+	if pe, ok := e.(*ast.ParenExpr); ok {
+		return c.handoutField(pe.X)
+	}
+	call, ok := e.(*ast.CallExpr)
+	if !ok {
+		return "", false
+	}
+	se, ok := call.Fun.(*ast.SelectorExpr)
+	if !ok {
+		return "", false
+	}
+	p, ok := c.recvPath(se.X)
+	if !ok || len(p) != 1 {
+		return "", false
+	}
+	ft, ok := c.g.fields[p[0]]
+	if !ok {
+		return "", false
+	}
+	lt, ok := libTypes[c.g.renderFull(ft)]
+	if !ok || lt.handout == nil || !lt.handout[se.Sel.Name] {
+		return "", false
+	}
+	return p[0], true
+}
+
+// itemOf: e denotes an object handed out by the library object in a field: a local bound to it, or the call itself
+func (c *ctx) itemOf(e ast.Expr) (string, bool) {
+	switch x := e.(type) {
+	case *ast.ParenExpr:
+		return c.itemOf(x.X)
+	case *ast.Ident:
+		if f, ok := c.items[x.Name]; ok {
+			return f, true
+		}
+	case *ast.CallExpr:
+		return c.handoutField(x)
+	}
+	return "", false
+}
+
+// an item that leaves the function's view (argument of a call, returned): unknown effect on it
+func (c *ctx) itemEscapes(e ast.Expr) []instr {
+	if id, ok := e.(*ast.Ident); ok {
+		if f, ok := c.items[id.Name]; ok {
+			return []instr{{op: "Write", path: []string{"*" + f, "item"}}}
+		}
+	}
+	return nil
+}
+
+func (g *gen) renderFull(n ast.Node) string {
+	var b bytes.Buffer
+	_ = printer.Fprint(&b, g.fset, n)
+	return strings.Join(strings.Fields(b.String()), "")
 }
 
 func isFuncType(e ast.Expr) bool {
@@ -264,6 +421,7 @@ func (c *ctx) call(x *ast.CallExpr, mode string) []instr {
 				}
 			}
 			out = append(out, c.expr(a)...)
+			out = append(out, c.itemEscapes(a)...)
 		}
 	}
 	closureArgs := func() []*closure {
@@ -422,6 +580,11 @@ func (c *ctx) call(x *ast.CallExpr, mode string) []instr {
 			evalArgs()
 			failEscaping(strings.Join(p, ".") + "." + sel)
 			out = append(out, instr{op: "Read", path: p})
+			if len(p) == 1 {
+				out = append(out, c.libEffects(p[0], sel)...)
+			} else {
+				out = append(out, instr{op: "Write", path: []string{"*" + strings.Join(p, ".")}})
+			}
 			name := "w." + strings.Join(p, ".") + "." + sel
 			if sel == "Wait" {
 				return append(out, instr{op: "Wait", arg: name})
@@ -434,6 +597,10 @@ func (c *ctx) call(x *ast.CallExpr, mode string) []instr {
 		// pkg.Func(...) or local.Method(...)
 		out = append(out, c.expr(f.X)...)
 		evalArgs()
+		if fld, ok := c.itemOf(f.X); ok {
+			// method of an object handed out by a library object in a field: cached.Extend(..)
+			out = append(out, c.itemEffects(fld, f.Sel.Name)...)
+		}
 		name := g.render(f)
 		failEscaping(name)
 		for _, a := range x.Args {
@@ -645,6 +812,7 @@ func (c *ctx) lhs(e ast.Expr) []instr {
 			_ = p
 			delete(c.alias, x.Name) // re-assigned
 		}
+		delete(c.items, x.Name)
 		return nil
 	case *ast.IndexExpr:
 		if p, ok := c.recvPath(x.X); ok && len(p) > 0 {
@@ -722,7 +890,29 @@ func (c *ctx) stmt(s ast.Stmt) []instr {
 		}
 		for _, r := range x.Rhs {
 			out = append(out, c.expr(r)...)
+			if len(x.Rhs) != 1 || len(x.Lhs) < 1 {
+				out = append(out, c.itemEscapes(r)...)
+			}
 		}
+		// a local bound to an object handed out by a library object in a field:  cached := w.signerCache.Get(k)
+		bindName, bindField := "", ""
+		if len(x.Rhs) == 1 && len(x.Lhs) >= 1 {
+			if fld, ok := c.itemOf(x.Rhs[0]); ok {
+				if id, isId := x.Lhs[0].(*ast.Ident); isId {
+					bindName, bindField = id.Name, fld
+				} else {
+					out = append(out, instr{op: "Write", path: []string{"*" + fld, "item"}}) // stored somewhere else
+				}
+			}
+		}
+		defer func() {
+			if bindName != "" && bindName != "_" {
+				if c.items == nil {
+					c.items = map[string]string{}
+				}
+				c.items[bindName] = bindField
+			}
+		}()
 		if x.Tok != token.ASSIGN && x.Tok != token.DEFINE { // += etc: read then write
 			for _, l := range x.Lhs {
 				out = append(out, c.expr(l)...)
@@ -745,6 +935,7 @@ func (c *ctx) stmt(s ast.Stmt) []instr {
 		var out []instr
 		for _, r := range x.Results {
 			out = append(out, c.expr(r)...)
+			out = append(out, c.itemEscapes(r)...)
 		}
 		return append(out, instr{op: "Return"})
 	case *ast.BlockStmt:
